@@ -294,8 +294,10 @@ where
     // Generate number of rows for the range trace.
     let range_table_len = range.get_number_range_checker_rows();
 
-    // Get the trace length required to hold all execution trace steps.
-    let max_len = range_table_len.max(clk as usize).max(chiplets.trace_len());
+    // Get the trace length required to hold all execution trace steps; the decoder trace must
+    // contain at least one HALT row after the executed cycles (the auxiliary columns read the
+    // program hash from it and the last program END needs a successor row).
+    let max_len = range_table_len.max(clk as usize + 1).max(chiplets.trace_len());
 
     // pad the trace length to the next power of two and ensure that there is space for the
     // rows to hold random values
